@@ -73,7 +73,7 @@ class _AttachClient(BaseClient):
 
 def run(repo, res, tier):
     res.rules = ["K1 returns deepcopy(self)", "K2 parent detach restored on all exits", "K3 no copy customisation",
-                 "K4 no mutated class-level containers", "K5 writes target the copy", "K6 keyword overrides / lazy style kwargs not shared (ORIGIN)", "K7 the copy joins its new parent last"]
+                 "K4 no mutated class-level containers", "K5 writes target the copy", "K6 keyword overrides / lazy style kwargs not shared (ORIGIN)", "K7 the copy joins its new parent last", "K8 parent override not decided by truthiness"]
     geo = repo.cls("BaseGeo")
     res.require("copy" in geo.methods, "anchor vanished: BaseGeo.copy")
     fn = geo.methods["copy"]
@@ -150,6 +150,24 @@ def run(repo, res, tier):
     for b in ac.bad[:1]:
         res.add(Finding("K7", rel, "BaseGeo.copy", b, "an override that can still be rejected is applied after the copy may already have been put into a collection "
                         "(parent= handled in the generic keyword loop): x.copy(parent=c, dimension='bad') raises and leaves a half-made copy inside c", b.lineno))
+    # ---- K8: whether the `parent=` override was given is decided by presence / `is not None`, never by truthiness: an (as yet) empty
+    #          Collection is falsy (it defines __len__), so `if new_parent:` silently drops copy(parent=Collection())
+    pnames = set()
+    for a_ in ast.walk(fn):
+        if isinstance(a_, ast.Assign) and isinstance(a_.value, ast.Call) and getattr(a_.value.func, "attr", "") in ("pop", "get") \
+                and a_.value.args and isinstance(a_.value.args[0], ast.Constant) and a_.value.args[0].value == "parent":
+            pnames |= {t.id for t in a_.targets if isinstance(t, ast.Name)}
+    for iff in ast.walk(fn):
+        if isinstance(iff, (ast.If, ast.IfExp)):
+            t_ = iff.test
+            while isinstance(t_, ast.UnaryOp) and isinstance(t_.op, ast.Not):
+                t_ = t_.operand
+            truthy = (isinstance(t_, ast.Name) and t_.id in pnames) or (isinstance(t_, ast.Call) and getattr(t_.func, "attr", "") in ("get", "pop")
+                                                                         and t_.args and isinstance(t_.args[0], ast.Constant) and t_.args[0].value == "parent")
+            if truthy:
+                res.ob(f"K8:{norm(iff.test)}", False)
+                res.add(Finding("K8", rel, "BaseGeo.copy", iff.test, "the parent= override is applied only if the given collection is truthy: an empty Collection is falsy, so "
+                                "x.copy(parent=Collection()) returns a parentless copy and the collection stays empty", iff.lineno))
     # ---- K5 writes
     for w in collect_writes(fn, set(repo.classes)):
         if w.recv == "self" and w.attr == "_parent":
